@@ -33,7 +33,7 @@ PROPS = {
                 assumptions=["simple graphs up to 30 nodes (thorough: 60); an empty core is allowed when the input is a tree", "planarise: cycle-plus-chords graphs on a jittered grid routed by LeaflessOrthoRouter"]),
     "C12": dict(build="plain", runs_quick=20000, budget_quick=150, runs_thorough=300000, budget_thorough=900,
                 rule="each evaluation is one simulated world: 1-2 hyperedge sessions (4-9 rectangles with centre and side pins, 1-2 hyperedges of 3..N terminals joined through 1-2 junctions at free points) "
-                     "executing histories of transactions with shape moves, junction moves, full rerouting registered by junction or by terminal list, with improveHyperedgeRoutesMovingJunctions or "
+                     "executing histories of transactions with shape moves, junction moves, full rerouting registered by junction or by terminal list, in 20 % of the sessions the route of one connector fixed (setFixedExistingRoute) after the first transactions, with improveHyperedgeRoutesMovingJunctions or "
                      "...AddingAndDeletingJunctions; the tree/terminal/attachment/route/reported-list oracles read the router's live objects after every transaction; heap placement decides the pointer-ordered "
                      "terminal and junction sets; non-trivial = a reach probe fired; distinct = distinct event-log hash",
                 assumptions=["route ends compared as an unordered pair; a junction the improver moved counts at recommendedPosition()",
